@@ -377,3 +377,48 @@ Example C08_ex_candidate_b :
              c_run (rc s) = CPDone true Stopped /\ cur (rm s) = Error)
   /\ run composite_fixed_rstep (rinit cctl composite_init) composite_witness = None.
 Proof. exact (conj candidate_b_nonvacuous candidate_b_blocks_witness). Qed.
+
+(* OUTSIDE the hypothesis "the consumer keeps up" (what the driver's slow-after-cancel classification is
+   about, model label [LFwdAbort]): a consumer that does not read for a whole grace period after its
+   context was cancelled loses the value in the forwarder's hand.  The stream [New; Stopped] is not
+   s0 :: changes for the history [Error; Stopped] ([classify_stream] = None); [classify_slow] explains it
+   with one discarded value (k = 1: one grace period between cancel and close) and not with none.  The
+   harness replays this shape on the real code on every run (mode slowsub). *)
+Definition C08_slow_after_cancel_run : list label :=
+  [LSub; LRead 0; LOp (OTrans Error) true; LDeliver 0; LFwdTake 0; LOp (OTrans Stopped) true; LDeliver 0;
+   LCancel 0; LFwdAbort 0; LRecv 0 New; LFwdTake 0; LFwdPut 0; LRecv 0 Stopped; LUnsub 0; LFwdClose 0;
+   LRecvClosed 0].
+Example C08_ex_slow_after_cancel :
+  exists s x, run (step fsm_cfg) init C08_slow_after_cancel_run = Some s /\ nth_error (subs s) 0 = Some x /\
+              hist s = [Error; Stopped] /\ got x = [New; Stopped] /\ gotclosed x = true /\ dropped x = true /\
+              classify_stream (hist s) (got x) true 0 0 2 2 = None /\
+              classify_slow (hist s) (got x) 0 0 2 2 1 = true /\
+              classify_slow (hist s) (got x) 0 0 2 2 0 = false.
+Proof. eexists. eexists. split; [vm_compute; reflexivity|]. repeat split; vm_compute; reflexivity. Qed.
+
+(* C08_result_composite_partial covers, like every theorem here, ALL schedules of the composite model - in
+   particular a child failure taken by Run() while a Reload() is in any of its phases ([CSelChild] is enabled
+   in [CPSelect] whatever [c_rl] is), and a child that fails in reaction to Stop()/cancel ([CChildFail] after
+   [CSelStop]/[CSelCancel]: nobody reads it).  Two such schedules: *)
+
+(* a child fails while a Reload() is between its callback and its final Transition(Running): Run() forces
+   Error from Reloading, the reload's Transition(Running) is refused and its handler forces Error again;
+   Run() returns an error, the state at its return is Error *)
+Example C08_ex_composite_failure_during_reload :
+  exists s, run composite_rstep (rinit cctl composite_init)
+                (map RC [CRunCall; CTBooting; CCb true; CTRunning; CReloadCall; CRlBegin; CRlT; CCb true;
+                         CChildFail; CSelChild; CRlApplyOk; CRlTRunning; CRlSetErr; CRlDone; CReloadRet;
+                         CRunRet false]) = Some s /\
+            c_run (rc s) = CPDone false Error /\ c_late (rc s) = false /\
+            hist (rm s) = [Booting; Running; Reloading; Error; Error].
+Proof. eexists. split; [vm_compute; reflexivity|]. repeat split; reflexivity. Qed.
+
+(* a child returns a real error in reaction to Stop(): Run() is past its select, the error is never read;
+   Run() returns nil, the state at its return is Stopped *)
+Example C08_ex_composite_error_on_stop :
+  exists s, run composite_rstep (rinit cctl composite_init)
+                (map RC [CRunCall; CTBooting; CCb true; CTRunning; CStopCall; CSelStop; CTStopping; CChildFail;
+                         CStopAllOk; CTStopped; CRunRet true; CStopRet]) = Some s /\
+            c_run (rc s) = CPDone true Stopped /\ c_child (rc s) = true /\ c_late (rc s) = false /\
+            hist (rm s) = [Booting; Running; Stopping; Stopped].
+Proof. eexists. split; [vm_compute; reflexivity|]. repeat split; reflexivity. Qed.
